@@ -2451,7 +2451,14 @@ func (c *Conn) applyTransportParameters() {
 	if params.MaxIdleTimeout > 0 {
 		c.idleTimeout = min(c.idleTimeout, params.MaxIdleTimeout)
 	}
-	c.keepAliveInterval = min(c.config.KeepAlivePeriod, c.idleTimeout/2)
+	// Keep-alives need to keep the peer from timing out as well.
+	// The peer times out after the duration it advertised, even if we don't let it
+	// reduce our own idle timeout below MinRemoteIdleTimeout.
+	keepAliveIdleTimeout := c.idleTimeout
+	if params.AdvertisedMaxIdleTimeout > 0 {
+		keepAliveIdleTimeout = min(keepAliveIdleTimeout, params.AdvertisedMaxIdleTimeout)
+	}
+	c.keepAliveInterval = min(c.config.KeepAlivePeriod, keepAliveIdleTimeout/2)
 	c.streamsMap.HandleTransportParameters(params)
 	c.frameParser.SetAckDelayExponent(params.AckDelayExponent)
 	c.connFlowController.UpdateSendWindow(params.InitialMaxData)
